@@ -25,6 +25,6 @@ m = {"id": sid, "property": am.get("property", sid[:3]), "summary": am.get("summ
      "demo_file": demo, "demo_goes_in": v["pkg"] + "/", "demo_cmd": "go test -vet=off -count=1 -run %s ./%s/" % (v["test"], v["pkg"]),
      "confirmed_by_me": {"how": "tools/verify_seed.sh in a scratch git worktree of /repo HEAD (including the fix: commits): demonstration run without the patch, patch applied with git apply, go build ./..., existing suite (go test ./protocol/... ./server/...), demonstration run with the patch; worktree removed afterwards",
                          "patch_applies": v["patch_applies"], "demo_without_patch_rc": v["demo_without_patch_rc"], "build_rc": v["build_rc"], "existing_suite_rc": v["existing_suite_rc"], "demo_with_patch_rc": v["demo_with_patch_rc"], "confirmed": v["confirmed"]},
-     "origin": "independent sub-agent given only the property text and a scratch worktree (round 2, after the checks existed)",
+     "origin": "independent sub-agent given only the property text and a scratch worktree (round %s, after the checks existed)" % os.environ.get("SEED_ROUND", "2"),
      "detected_by": "", "detected_by_all": [], "checks_run": [], "undecided_checks": []}
 json.dump(m, open(os.path.join(dst, "meta.json"), "w"), indent=1)
